@@ -236,7 +236,7 @@ def search(prop, tier, seed, runs=None, workers=None, wall_cap=None, log=print, 
     workers = workers or min(16, os.cpu_count() or 4)
     wall_cap = wall_cap or WALL_CAP[tier]
     # CPU-time limits decide; the wall limit is only a backstop (8x) and never a verdict
-    cpu, wall = (90, 720) if tier == "quick" else (180, 1440)
+    cpu, wall = (150, 1200) if tier == "quick" else (240, 1920)
     chunks = [(c, list(range(c * CHUNK, min(runs, (c + 1) * CHUNK)))) for c in range((runs + CHUNK - 1) // CHUNK)]
     known = load_known()
     results = []
